@@ -270,7 +270,15 @@ bool aiounicast_nonblock::Send
 	mpz_t tmp;
 	mpz_init_set(tmp, m);
 	if (aio_is_encrypted)
+	{
+		if (mpz_sgn(tmp) < 0)
+		{
+			std::cerr << "aiounicast_nonblock: negative m cannot be hidden" << std::endl;
+			mpz_clear(tmp);
+			return false;
+		}
 		mpz_add(tmp, tmp, aio_hide_length); // add $2^c$ to hide length
+	}
 	size_t size = mpz_sizeinbase(tmp, TMCG_MPZ_IO_BASE);
 	if ((size * 2) >= buf_in_size)
 	{
